@@ -555,6 +555,37 @@ def zero_limit_history(rng):
     return g.ops
 
 
+def package_history(rng):
+    """C08/C01: package lists over a small alphabet, reported again and again (the daemon only forwards what is new), with
+    the delivery of the package payload failing and succeeding, answered at once or after the next period's reports"""
+    g = Gen(rng, napps=1, profile="nofatal", timeout=0)
+    g.ops.append("proc defapp k1 lic=LIC1 name=app1 redirect=- lang=php ver=1.1 host=h1 dt=0 span=10000 log=10000 custom=30000 docker=-")
+    g.apps.append("k1")
+    g.ops.append("proc app k1 run=-")
+    g.ops.append("proc reply k1 preconnect 0 200 host=coll-k1.example")
+    run = "r1www"
+    g.ops.append("proc reply k1 connect 0 200 run=%s rp=- ee=- ae=- ce=- se=- le=- srp=- sl=- rules=- hdr=-" % run)
+    late = None
+    for period in range(rng.randint(2, 5)):
+        for _ in range(rng.randint(0, 3)):
+            pk = ",".join("%s:%s" % (rng.choice(["pa", "pb", "pc"]), rng.choice(["1.0", "2.0"])) for _ in range(rng.randint(1, 3)))
+            g.ops.append("proc txn %s name=t1 pid=1 prio=%d ev=%d pkgs=%s" % (run, rng.randrange(1000000), g.fresh()[0], pk))
+        if late:
+            g.drain(run, late)
+            late = None
+        g.ops.append("proc trigger %s %d" % (run, rng.choice([DEFAULT, DEFAULT, ALL])))
+        out = rng.choice(["200", "503", "503", "429", "500", "404", "408"])
+        if rng.random() < 0.6:
+            g.drain(run, out)
+        else:
+            late = out
+    if late:
+        g.drain(run, late)
+    g.ops.append("proc state")
+    g.ops.append("proc cleanexit default=200")
+    return g.ops
+
+
 def rule_change_history(rng):
     """C07: the rename rules are those of the run's own connect reply.  An application connects with one rule list, reports
     metrics, is restarted by the collector at a harvest (409) and reconnects with another rule list (or none); possibly again"""
